@@ -1,10 +1,16 @@
 """C04 - Cursor fetches deliver every row exactly once, in order.
 
-Case:  {"lazy": bool, "n": rows, "ops": [op, ...]}   op =
+Case:  {"lazy": bool, "n": rows, "ops": [op, ...], optional "seq": "tuple", optional "schema": "relation"}   op =
   ["fetchone"] | ["fetchmany", k|None] | ["fetchall"] | ["arraysize", n] | ["obs", name] | ["append"]
+  | ["append_bad", kind]      an append whose entry makes DataFrame.append raise (kinds: BAD_KINDS)
 Rows are the 1-tuples (0,), (1,), ...; appended rows are (1000+j,), so a row is
-identified by its integer and "skipped / repeated" is directly visible.
-Observed: one entry per op: ["row", id|None] | ["rows", [ids]] | ["unit"] | ["raise", exc]."""
+identified by its integer and "skipped / repeated" is directly visible.  The j-th rejected
+entry that could be stored as a row at all carries the id -(100+j) (a too-wide integer) or -2.
+"schema": "relation" builds the frame over a RelationSchema (one INTEGER column), so append
+starts with schema validation and takes dict entries.
+Observed: one entry per op: ["row", id|None] | ["rows", [ids]] | ["unit"] | ["raise", exc]
+  | ["append", returned_normally, length of the row store right after the call | None, exc|None]
+(the store length is read off the frame's list without calling any DataFrame method)."""
 import itertools
 
 from vlib import coqlit as L
@@ -23,14 +29,18 @@ DESIGN_REF = "DESIGN.md section 8, C04"
 COQ_IMPORTS = "From Orso Require Import Model.C04."
 COQ_CHECKS = {"hist": "c04_check"}
 COQ_SHOW = {"hist": "c04_show"}
-RULE = ("histories over {fetchone, fetchmany(k), fetchmany(), fetchall, arraysize change, real read-only observers, append} "
-        "run on a real DataFrame (eager: list-backed; lazy: generator-backed, cursor-only histories); exhaustive over "
-        "rows 0..3 x histories up to the stated depth over an 11-letter alphabet, then random deeper histories; "
+RULE = ("histories over {fetchone, fetchmany(k), fetchmany(), fetchall, arraysize change, real read-only observers, append, "
+        "append of an entry that makes append raise (rejected by validation / by the row factory / by Row.nbytes)} "
+        "run on a real DataFrame (eager: list-backed, over a name list or a RelationSchema; lazy: generator-backed, cursor-only "
+        "histories plus failing append calls); after every append call the length of the row store is recorded; exhaustive over "
+        "rows 0..3 x histories up to the stated depth over a 12-letter alphabet, then random deeper histories; "
         "a case is non-trivial when at least one fetch delivered a row; distinct by canonical JSON")
 TRUSTED = [
     "C04 model (coq/Model/C04.v): cursor as a position in the row list (eager) / as the generator itself (lazy); "
     "observers are classified by the harness as materialising or pure (a wrong classification shows as a mismatch on lazy frames)",
     "modelled, not verified: CPython list-iterator and generator semantics behind DataFrame._cursor",
+    "the harness's classification of an entry as one that makes append raise (AppendBad) - a wrong classification shows as a "
+    "mismatch on the append's own output; the row-store length after an append is read from DataFrame._rows (a list) directly",
 ]
 ASSUMPTIONS = [
     "lazy frames are exercised only through the cursor (plus observers that do not materialise), as the property states",
@@ -38,6 +48,65 @@ ASSUMPTIONS = [
 ]
 
 PURE_OBS = ["column_names", "columncount", "arraysize_read"]
+# entries that make DataFrame.append raise, by the statement of append that raises
+BAD_KINDS = {
+    # frames over a list of names: no validation; the row factory or Row.nbytes() raises
+    "names": ["wide_int", "non_iterable", "nonstr_key", "dict_wide", "none", "nested", "oversize"],
+    # frames over a RelationSchema: validation raises first; "wide" passes validation and the factory, nbytes raises
+    "relation": ["wide", "notdict", "wrongtype", "extra", "missing"],
+}
+CHEAP_BAD = {"names": BAD_KINDS["names"][:-1], "relation": BAD_KINDS["relation"]}
+WIDE = 2 ** 64            # ormsgpack refuses integers from here on
+WIDE_KINDS = ("wide_int", "dict_wide", "wide")
+
+
+def _bad_entry(kind, j):
+    if kind == "wide_int":
+        return (WIDE + j,)
+    if kind == "dict_wide":
+        return {"a": WIDE + j}
+    if kind == "wide":
+        return {"a": WIDE + j}
+    if kind == "non_iterable":
+        return 5
+    if kind == "none":
+        return None
+    if kind == "nonstr_key":
+        return ({1: 2},)
+    if kind == "nested":
+        x = []
+        for _ in range(300):
+            x = [x]
+        return (x,)
+    if kind == "oversize":
+        return ("x" * (16 * 1024 * 1024 + 1),)
+    if kind == "notdict":
+        return (7,)
+    if kind == "wrongtype":
+        return {"a": "s"}
+    if kind == "extra":
+        return {"a": 1, "b": 2}
+    if kind == "missing":
+        return {}
+    raise KeyError(kind)
+
+
+def _bad_id(kind, j):
+    return -(100 + j) if kind in WIDE_KINDS else -2
+
+
+def _rid(row):
+    """the integer identifying a delivered row (rejected entries that leaked into the frame included)"""
+    v = row[0]
+    if isinstance(v, int) and not isinstance(v, bool):
+        return -(100 + (v - WIDE)) if v >= WIDE else v
+    return -2
+
+
+def _schema_kind(case):
+    return "relation" if case.get("schema") == "relation" else "names"
+
+
 MAT_OBS = ["rowcount", "len", "shape", "collect", "iter", "slice", "arrow", "display", "str", "head", "tail", "getitem", "row", "markdown", "nbytes", "distinct", "query"]
 
 
@@ -90,7 +159,14 @@ def observe(case):
 
     n = case["n"]
     rows = [(i,) for i in range(n)]
-    if case["lazy"]:
+    rel = _schema_kind(case) == "relation"
+    if rel:
+        from orso.schema import FlatColumn, RelationSchema
+        from orso.types import OrsoTypes
+
+        schema = RelationSchema(name="t", columns=[FlatColumn(name="a", type=OrsoTypes.INTEGER)])
+        df = DataFrame(rows=list(rows), schema=schema)
+    elif case["lazy"]:
         df = DataFrame(rows=(r for r in rows), schema=["a"])
     elif case.get("seq") == "tuple":
         # an in-memory frame whose row store is a sequence but not a list: materialised on first
@@ -100,27 +176,39 @@ def observe(case):
         df = DataFrame(rows=list(rows), schema=["a"])
     outs = []
     appended = 0
+    bad = 0
     for op in case["ops"]:
+        if op[0] in ("append", "append_bad"):
+            if op[0] == "append":
+                entry = {"a": 1000 + appended} if rel else (1000 + appended,)
+                appended += 1
+            else:
+                entry = _bad_entry(op[1], bad)
+                bad += 1
+            try:
+                df.append(entry)
+                ok, exc = True, None
+            except Exception as e:  # the call raised
+                ok, exc = False, type(e).__name__
+            store = df._rows  # fail closed (AttributeError) if the row store is renamed
+            outs.append(["append", ok, len(store) if isinstance(store, list) else None, exc])
+            continue
         try:
             k = op[0]
             if k == "fetchone":
                 r = df.fetchone()
-                outs.append(["row", None if r is None else int(r[0])])
+                outs.append(["row", None if r is None else _rid(r)])
             elif k == "fetchmany":
                 r = df.fetchmany() if op[1] is None else df.fetchmany(op[1])
-                outs.append(["rows", [int(x[0]) for x in r]])
+                outs.append(["rows", [_rid(x) for x in r]])
             elif k == "fetchall":
                 r = df.fetchall()
-                outs.append(["rows", [int(x[0]) for x in r]])
+                outs.append(["rows", [_rid(x) for x in r]])
             elif k == "arraysize":
                 df.arraysize = op[1]
                 outs.append(["unit"])
             elif k == "obs":
                 _observer(df, op[1])
-                outs.append(["unit"])
-            elif k == "append":
-                df.append((1000 + appended,))
-                appended += 1
                 outs.append(["unit"])
             else:
                 raise KeyError(k)
@@ -136,14 +224,15 @@ def oracle(case, outs):
     rows = list(range(case["n"]))
     pos = 0
     asz = 100
-    dead = False
+    dead = False          # a row has been appended (the frame has grown)
+    count = len(rows)     # rows in the frame
     for i, (op, out) in enumerate(zip(case["ops"], outs)):
         k = op[0]
         where = f"op {i} {op}"
         if k in ("fetchone", "fetchmany", "fetchall"):
             if dead:
                 if out[0] != "raise":
-                    return f"{where}: fetch after append must refuse to run, returned {out}"
+                    return f"{where}: the frame has grown to {count} rows by append, fetch must refuse to run, returned {out}"
                 continue
             if out[0] == "raise":
                 return f"{where}: fetch raised {out[1]} although no row was appended"
@@ -171,12 +260,25 @@ def oracle(case, outs):
         elif k == "obs":
             if out != ["unit"]:
                 return f"{where}: read-only observer raised {out}"
-        elif k == "append":
+        elif k in ("append", "append_bad"):
             if case["lazy"]:
                 continue  # outside the contract (lazy frames are read only through the cursor)
-            if out != ["unit"]:
-                return f"{where}: append raised {out}"
-            dead = True
+            if out[0] != "append" or out[2] is None:
+                return f"{where}: no append outcome / row-store length recorded on a materialised frame: {out}"
+            ok, after = out[1], out[2]
+            if k == "append" and not ok:
+                return f"{where}: append raised {out[3]}"
+            if after == count + 1:
+                # a row has been appended - whether or not the call then raised: from here on
+                # every fetch call has to refuse
+                dead = True
+                count = after
+            elif after == count:
+                if ok:
+                    return f"{where}: append returned normally but the frame still has {count} rows"
+                # nothing was appended: the cursor contract carries on unchanged
+            else:
+                return f"{where}: an append call changed the frame from {count} to {after} rows"
     return None
 
 
@@ -192,18 +294,20 @@ def _coq_op(op):
         return "(SetArraysize %s)" % L.Z(op[1])
     if k == "obs":
         return "ObservePure" if op[1] in PURE_OBS else "ObserveMat"
-    if k == "append":
-        return "(Append %s)" % L.Z(1000 + op[1]) if len(op) > 1 else None
     raise KeyError(k)
 
 
 def to_coq(case, outs):
     ops = []
     j = 0
+    b = 0
     for op in case["ops"]:
         if op[0] == "append":
             ops.append("(Append %s)" % L.Z(1000 + j))
             j += 1
+        elif op[0] == "append_bad":
+            ops.append("(AppendBad %s)" % L.Z(_bad_id(op[1], b)))
+            b += 1
         else:
             ops.append(_coq_op(op))
     cobs = []
@@ -214,6 +318,8 @@ def to_coq(case, outs):
             cobs.append("(ORows %s)" % L.lst(L.Z(x) for x in o[1]))
         elif o[0] == "unit":
             cobs.append("OUnit")
+        elif o[0] == "append":
+            cobs.append("(OAppend %s %s)" % (L.boolean(o[1]), L.opt(None if o[2] is None else L.nat(o[2]))))
         else:
             cobs.append("ORaise")
     term = "(%s, %s, (%s : list (op Z)), (%s : list (out Z)))" % (
@@ -229,49 +335,91 @@ def nontrivial_key(case, outs):
     delivered = any((o[0] == "row" and o[1] is not None) or (o[0] == "rows" and o[1]) for o in outs)
     if not delivered:
         return None
-    return repr((case["lazy"], case.get("seq"), case["n"], case["ops"]))
+    return repr((case["lazy"], case.get("seq"), case.get("schema"), case["n"], case["ops"]))
 
 
 def classify(case, outs):
     yield "lazy" if case["lazy"] else ("eager-tuple" if case.get("seq") == "tuple" else "eager")
+    if case.get("schema") == "relation":
+        yield "relation-schema"
     yield "rows=%d" % min(case["n"], 4) + ("+" if case["n"] > 4 else "")
     yield "depth=%d" % min(len(case["ops"]), 8) + ("+" if len(case["ops"]) > 8 else "")
-    for op in case["ops"]:
+    seen_fail = False
+    for op, o in zip(case["ops"], outs):
         yield "op:" + op[0]
+        if op[0] == "append_bad":
+            yield "bad:" + op[1]
+        if o[0] == "append" and not o[1]:
+            seen_fail = True
+        elif seen_fail and op[0] in ("fetchone", "fetchmany", "fetchall"):
+            yield "fetch-after-failed-append"
+            if (o[0] == "row" and o[1] is not None) or (o[0] == "rows" and o[1]):
+                yield "fetch-after-failed-append-delivered"
     if any(o[0] == "raise" for o in outs):
         yield "some-call-raised"
 
 
-def _alphabet(n, obs_cycle):
+def _alphabet(n, obs_cycle, bad_cycle):
     return [
         ["fetchone"], ["fetchmany", 0], ["fetchmany", 1], ["fetchmany", 2], ["fetchmany", n + 1],
         ["fetchmany", None], ["fetchall"], ["arraysize", 1], ["obs", next(obs_cycle)],
-        ["obs", "column_names"], ["append"],
+        ["obs", "column_names"], ["append"], ["append_bad", next(bad_cycle)],
     ]
+
+
+def _is_append(o):
+    return o[0] in ("append", "append_bad")
+
+
+def corpus():
+    """The exception path of append at every cursor position: k fetches, an append that raises (every kind,
+    the 16Mb one included), then one fetch of each sort (and the same with a stored append after it)."""
+    for schema in ("names", "relation"):
+        for kind in BAD_KINDS[schema]:
+            for pre in range(0, 5):
+                for tail in ([], [["append"], ["fetchone"]]):
+                    c = {"lazy": False, "n": 3,
+                         "ops": [["fetchone"]] * pre + [["append_bad", kind], ["fetchone"], ["fetchmany", 5], ["fetchall"]] + tail}
+                    if kind == "oversize" and (tail or pre not in (0, 2)):
+                        continue
+                    if schema == "relation":
+                        c["schema"] = "relation"
+                    yield c
 
 
 def exhaustive(tier):
     depth = 3 if tier == "quick" else 4
+    rdepth = 2 if tier == "quick" else 3
 
     def it():
         cyc = itertools.cycle(MAT_OBS)
+        bad = itertools.cycle(CHEAP_BAD["names"])
         for n in range(0, 4):
             for d in range(0, depth + 1):
-                alpha = _alphabet(n, cyc)
+                alpha = _alphabet(n, cyc, bad)
                 for hist in itertools.product(alpha, repeat=d):
                     yield {"lazy": False, "n": n, "ops": [list(o) for o in hist]}
 
-        # the same histories without append on tuple-backed frames (depth <= 2)
+        # the same histories without append calls on tuple-backed frames (depth <= 2)
         for n in range(0, 4):
             for d in range(0, 3):
-                alpha = [o for o in _alphabet(n, cyc) if o[0] != "append"]
+                alpha = [o for o in _alphabet(n, cyc, bad) if not _is_append(o)]
                 for hist in itertools.product(alpha, repeat=d):
                     yield {"lazy": False, "seq": "tuple", "n": n, "ops": [list(o) for o in hist]}
 
-    return it(), f"all eager histories of depth <= {depth} over the 11-letter alphabet on frames of 0..3 rows (list-backed; tuple-backed without append to depth 2)"
+        # frames over a RelationSchema (append validates first, entries are dicts)
+        rbad = itertools.cycle(CHEAP_BAD["relation"])
+        for n in range(0, 4):
+            for d in range(1, rdepth + 1):
+                alpha = _alphabet(n, cyc, rbad)
+                for hist in itertools.product(alpha, repeat=d):
+                    yield {"lazy": False, "schema": "relation", "n": n, "ops": [list(o) for o in hist]}
+
+    return it(), (f"all eager histories of depth <= {depth} over the 12-letter alphabet (fetches, arraysize, observers, append, failing append) "
+                  f"on frames of 0..3 rows (list-backed; tuple-backed without append calls to depth 2; RelationSchema-backed to depth {rdepth})")
 
 
-def _random_case(rng, lazy):
+def _random_case(rng, lazy, schema="names"):
     n = rng.choice([0, 1, 2, 3, 5, 8, 12])
     ops = []
     for _ in range(rng.randint(1, 14)):
@@ -282,34 +430,80 @@ def _random_case(rng, lazy):
             ops.append(["fetchmany", rng.choice([None, 0, 1, 2, 3, n, n + 1, -1])])
         elif r < 0.6:
             ops.append(["fetchall"])
-        elif r < 0.7:
+        elif r < 0.68:
             ops.append(["arraysize", rng.choice([0, 1, 2, 3, 7, 100])])
-        elif r < 0.93:
+        elif r < 0.87:
             ops.append(["obs", rng.choice(PURE_OBS if lazy else PURE_OBS + MAT_OBS)])
-        elif not lazy:
+        elif r < 0.94:
+            ops.append(["append_bad", rng.choice(CHEAP_BAD[schema])])
+        elif not lazy or r < 0.96:
             ops.append(["append"])
-    return {"lazy": lazy, "n": n, "ops": ops}
+    c = {"lazy": lazy, "n": n, "ops": ops}
+    if schema == "relation":
+        c["schema"] = "relation"
+    return c
+
+
+def _failed_append_case(rng):
+    """aimed at the exception path of append: some fetches, an append that raises, then fetches again"""
+    schema = rng.choice(["names", "names", "relation"])
+    n = rng.choice([0, 1, 2, 3, 5, 8])
+
+    def fetches(lo, hi):
+        out = []
+        for _ in range(rng.randint(lo, hi)):
+            r = rng.random()
+            if r < 0.5:
+                out.append(["fetchone"])
+            elif r < 0.8:
+                out.append(["fetchmany", rng.choice([None, 0, 1, 2, n + 1])])
+            elif r < 0.9:
+                out.append(["fetchall"])
+            else:
+                out.append(["obs", rng.choice(PURE_OBS + MAT_OBS)])
+        return out
+
+    kinds = BAD_KINDS[schema] if rng.random() < 0.03 else CHEAP_BAD[schema]
+    ops = fetches(0, n + 1) + [["append_bad", rng.choice(kinds)]] + fetches(1, 4)
+    if rng.random() < 0.4:
+        ops += [["append_bad", rng.choice(CHEAP_BAD[schema])]] + fetches(0, 3)
+    if rng.random() < 0.3:
+        ops += [["append"]] + fetches(1, 2)
+    c = {"lazy": False, "n": n, "ops": ops}
+    if schema == "relation":
+        c["schema"] = "relation"
+    return c
 
 
 def _tuple_case(rng):
     c = _random_case(rng, lazy=False)
-    c["ops"] = [o for o in c["ops"] if o[0] != "append"]
+    c["ops"] = [o for o in c["ops"] if not _is_append(o)]
     c["seq"] = "tuple"
     return c
 
 
 def generate(rng, tier):
-    count = 600 if tier == "quick" else 12000
+    count = 720 if tier == "quick" else 14400
     for i in range(count):
-        if i % 5 == 4:
+        if i % 6 == 5:
+            yield _failed_append_case(rng)
+        elif i % 6 == 4:
             yield _tuple_case(rng)
+        elif i % 6 == 2:
+            yield _random_case(rng, lazy=False, schema="relation")
         else:
             yield _random_case(rng, lazy=(i % 3 == 0))
 
 
 def search(rng):
     while True:
-        yield _random_case(rng, lazy=rng.random() < 0.3)
+        r = rng.random()
+        if r < 0.3:
+            yield _random_case(rng, lazy=True)
+        elif r < 0.5:
+            yield _failed_append_case(rng)
+        else:
+            yield _random_case(rng, lazy=False, schema=rng.choice(["names", "names", "relation"]))
 
 
 def shrink(case):
